@@ -3,6 +3,7 @@ package seqio
 import (
 	"fmt"
 	"io"
+	"math"
 	"strconv"
 	"strings"
 
@@ -383,6 +384,10 @@ func GenBankParser(state *pars.State, result *pars.Result) error {
 	length := result.Children[2].Value.(int)
 	if length < 0 {
 		return pars.NewError("negative sequence length", state.Position())
+	}
+	if length > math.MaxInt64/2 {
+		// the size of the ORIGIN block would not fit an int
+		return pars.NewError("sequence length out of range", state.Position())
 	}
 	molecule, err := gts.AsMolecule(string(result.Children[3].Token))
 	if err != nil {
